@@ -199,6 +199,18 @@ CLAIMED = {
         'Quantile invariance is proved for integer-valued members (Leibniz order), the mean over Q. Fixed: MultiSim debug mode raised. Closed under the global context.',
    technique='Coq proofs of schedule- and order-invariance over the generated reseeding formula + bit-exact comparison of multi-run members with standalone runs',
    design='5 C18'),
+ 'C05': dict(
+   text='Coq theorems over R about the maps from the uniform stream to the variates that starsim itself defines, REGENERATED from distributions.py: uniform (support [low, high) and quantile law '
+        'ppf(u) <= x <-> u <= (x - low)/(high - low)), the per-agent path of randint (scaled uniform in [low, high), its integer part in the half-open integer range), Bernoulli (true iff u < p, '
+        'monotone in p under a fixed stream, never for p <= 0, always for p >= 1), the explicit lognormal (with the generated implicit parameters exp(mu + sigma^2/2) = mean and '
+        '(exp(sigma^2) - 1) exp(2 mu + sigma^2) = std^2, for all mean, std > 0), time-wrapped parameters (variates x exactly the factor). Q twins of the same source expressions are evaluated in '
+        'Coq against recorded (uniform, variate) pairs. For every family of ss.dist_list x {scalar, array, callable} parameters the implementation is compared with the SciPy quantile function '
+        'on the same-seed uniform stream (exact) and with the SciPy law (KS / moments, 6 sigma); paths agree, supports, dtypes, empty requests, Bernoulli monotonicity, time scaling over a unit grid.',
+   note='PARTIAL: the quantile functions of normal, lognormal, exponential, Poisson, negative binomial, Weibull and gamma are SciPy`s (family and parameter names pinned) and the NumPy generator '
+        'methods of the scalar path are oracles: their laws are tested statistically, not proved. R theorems use the standard real-number axioms (sig_forall_dec, sig_not_dec, classic, '
+        'functional_extensionality_dep). Fixed: randint per-agent path (AttributeError, closed range).',
+   technique='Coq real-analysis proofs over generated sampling maps + in-Coq evaluation of their Q twins + exact / statistical comparison with SciPy on the same uniform stream',
+   design='5 C05'),
 }
 
 checks = []
